@@ -471,6 +471,22 @@ func mkCoreCases() []func(rng *rand.Rand) mkCase {
 			})
 		}
 	}
+	// a message whose key cannot be encoded (the partitioner fails for it) in the middle of a script: it
+	// takes its expectation with it, the following messages meet the following expectations
+	for _, mock := range []string{"sync", "async"} {
+		for _, kinds := range [][]mkExpKind{{mkS, mkF, mkS, mkS}, {mkS, mkS, mkF, mkS}, {mkF, mkS}, {mkS, mkVSp, mkS, mkF, mkS}} {
+			mock, kinds := mock, kinds
+			add(func(rng *rand.Rand) mkCase {
+				c := mkFixedProducer(rng, mock, "hash", kinds, len(kinds), 3, 1, false)
+				i := 1 % len(c.msgs)
+				c.msgs[i].badKey = true
+				c.msgs[i].hasKey = true
+				c.msgs[i].msg.Key = mkBadKey{}
+				c.tag = "bad-key-mid-script"
+				return c
+			})
+		}
+	}
 	// consumer
 	for i := 0; i < 11; i++ {
 		i := i
